@@ -44,6 +44,23 @@ CLAIMED = {
              note=TB + "str(int)/int(s,16)/upper() modelled by digit arithmetic.",
              tech="Lean 4 proof (bijective base-26 numeration; finite case analysis on hex digits) + differential correspondence", ref="4/C20"),
 }
+CLAIMED.update({
+ "C04": dict(text="Lean theorems for every label list and option set: labels conserved (permutation of the input), stubs of layer j are exactly one level-j stub per label of a farther layer and nothing else, occupied layers contiguous from the axis, one layer without an upper bound / when the labels fit, overlap algorithm: every layer within the density budget unless it holds <= 2 labels (accounting identity, fuel of both loops suffices), >= 3 non-fitting labels are split. Model tied to Distributor.distribute and Force.compute by exact-mode equality of layers (order within layers included); structural predicates (conservation, contiguity, stub chains with parent/child links, payload, stub width, capacity, getLayers) evaluated in Lean on the implementation's node graph",
+             note=TB + "Modelled not verified: intervaltree overlap semantics (half-open intersection), stable sorts, ceil. Float mode judges structure only; float threshold ties of the fit test are counted, not judged.",
+             tech="Lean 4 proof (loop invariants with fuel) + differential correspondence of layers in exact Fraction mode", ref="4/C04"),
+ "C06": dict(text="Lean theorems: the engine after ANY history of set-options/set-labels/compute calls reports compute(accumulated options, current labels) (engine_is_pure, compute_idempotent); stable sort of a permuted list with interchangeable ties is the same list (sort_canonical, sortIds_canonical) hence per layer the same positions item for item (removeOverlap_perm). Real Force objects driven through random histories (re-compute, re-configure, stale nodes into a fresh engine, second label set, nodes([]) quirk, permuted input) and compared after every compute with the pure model in exact mode",
+             note=TB + "Partial: permutation invariance of the whole multi-layer pipeline (equivariance of the layering loops under relabelling) is validated by the history correspondence and the perm predicate, proved only per layer and for the sort.",
+             tech="Lean 4 proof (state machine by construction; uniqueness of sorted permutations) + history-based differential correspondence", ref="4/C06"),
+ "C07": dict(text="Lean theorems for every node/direction: link starts at the datum's dot, has one curve per layer, ends within 1 (origin truncation) of the middle of the axis-facing edge of its own box; box extent along the axis is the datum size plus padding; dots are the affine image of the supplied time (ms, time of day included) with the domain mapped onto [0, L]; degenerate domain -> 0. Stage-wise correspondence on both back-ends: parsed SVG/TikZ geometry vs the render model fed with the implementation's node states, dots/ticks vs the scale and calendar models, axis domain vs nice, every captured removeOverlap call vs the layout model, box sizes and verbatim texts",
+             note=TB + "Modelled not verified: ElementTree escaping, printf-style number formatting. Text measurement via LaTeX is outside the domain (explicit widths).",
+             tech="Lean 4 proof (render geometry, truncation bounds) + stage-wise differential correspondence of parsed exports", ref="4/C07"),
+ "C08": dict(text="Lean theorems: boxes of one layer whose centres keep the C01 separation with spacing >= 3 are disjoint along the axis up to the solver tolerance (1 for rounding + < 2 for two truncations), the hypothesis being exactly what C01 proves (c01_gives_separation); every box lies on the named side more than layerGap-1 from the axis; farther layers lie wholly beyond nearer ones when layerGap >= 1. Rectangles parsed from both real exports are tested for pairwise intersection, side and nesting in Lean",
+             note=TB + "Disjointness is up to (j-i)*1e-10 in the theorem (solver tolerance); the implementation oracle is exact on the printed integers/decimals.",
+             tech="Lean 4 proof (interval arithmetic on truncated origins) + parsed-rectangle predicates on real exports", ref="4/C08"),
+ "C09": dict(text="Lean theorems bounding the only differences between the back-ends: '%f'/'%.8f' within half a last decimal (fixed_close), '%i' within 1 (truncated_within_one), same box function, same colour triple (C20), TeX text reads back as SVG text (C19), distinct macro names. The two real documents are parsed and compared field by field in Lean: axis, main shift, boxes, dots, links point for point, ticks and tick texts, per-datum colours, label texts (via the uni2tex model), link continuity and macro naming in TikZ",
+             note=TB + "Margins excluded as the property says. Non-integral drawing sizes: the TikZ axis length is printed with %i, accepted within the 1-unit truncation.",
+             tech="Lean 4 proof (print-precision bounds) + field-by-field comparison of parsed SVG and TikZ", ref="4/C09"),
+})
 checks = []
 for p in props:
     pid = p["id"]
